@@ -552,3 +552,67 @@ Example wf_nontrivial :
                AD; AD; AD; AD; AD; ABlk 2 16; ARblk 40; AInt I32; ALD; ABlk 4 16] in
   wf_args args = true /\ so (snd (assign args)) = 112 /\ ni (snd (assign args)) = 6 /\ nx (snd (assign args)) = 8.
 Proof. repeat split; reflexivity. Qed.
+
+(* ---------------------------------------------------------------- the trampoline cache key *)
+Lemma ity_code_inj a b : ity_code a = ity_code b -> a = b.
+Proof. destruct a, b; simpl; intros H; try reflexivity; discriminate. Qed.
+
+Lemma rty_code_inj a b : rty_code a = rty_code b -> a = b.
+Proof.
+  destruct a as [t| | |], b as [u| | |]; simpl; intros H; try reflexivity;
+    try (destruct t; simpl in H; discriminate); try (destruct u; simpl in H; discriminate);
+    try discriminate.
+  f_equal. apply ity_code_inj. assumption.
+Qed.
+
+(* equal descriptors denote the same argument (for the argument types MIR has: case number <= 4) *)
+Lemma arg_desc_eq_same a b : wf_arg a = true -> wf_arg b = true ->
+  arg_desc_eq all_blk_type_p a b = true -> a = b.
+Proof.
+  unfold arg_desc_eq, all_blk_type_p. intros Wa Wb H. apply andb_true_iff in H as [H1 H2].
+  apply Z.eqb_eq in H1.
+  destruct a as [t| | | |k s|s], b as [u| | | |k' s'|s']; simpl in H1, H2;
+    try reflexivity; try (destruct t; simpl in H1; lia); try (destruct u; simpl in H1; lia); try lia.
+  - f_equal. apply ity_code_inj. assumption.
+  - assert (k = k') by lia. subst k'.
+    destruct k as [|[|[|[|[|k]]]]]; simpl in Wa; try discriminate; simpl in H2;
+      apply Z.eqb_eq in H2; subst; reflexivity.
+  - destruct k as [|[|[|[|[|k]]]]]; simpl in Wa; try discriminate; simpl in H1; lia.
+  - destruct k' as [|[|[|[|[|k']]]]]; simpl in Wb; try discriminate; simpl in H1; lia.
+  - apply Z.eqb_eq in H2. subst. reflexivity.
+Qed.
+
+Lemma forallb2_args_same l1 : forall l2, wf_args l1 = true -> wf_args l2 = true ->
+  forallb2 (arg_desc_eq all_blk_type_p) l1 l2 = true -> l1 = l2.
+Proof.
+  induction l1 as [|a r IH]; intros l2 W1 W2 H; destruct l2 as [|b r2]; simpl in *; try discriminate; [reflexivity|].
+  apply andb_true_iff in W1 as [Wa Wr]. apply andb_true_iff in W2 as [Wb Wr2]. apply andb_true_iff in H as [H1 H2].
+  f_equal; [apply arg_desc_eq_same; assumption|apply IH; assumption].
+Qed.
+
+Lemma forallb2_res_same l1 : forall l2,
+  forallb2 (fun a b => rty_code a =? rty_code b) l1 l2 = true -> l1 = l2.
+Proof.
+  induction l1 as [|a r IH]; intros l2 H; destruct l2 as [|b r2]; simpl in *; try discriminate; [reflexivity|].
+  apply andb_true_iff in H as [H1 H2]. apply Z.eqb_eq in H1.
+  f_equal; [apply rty_code_inj; assumption|apply IH; assumption].
+Qed.
+
+(* two call sites that share a cached trampoline need the same trampoline *)
+Lemma ff_cache_key_sound_l i1 i2 : wf_args (cs_args i1) = true -> wf_args (cs_args i2) = true ->
+  ff_interface_eq i1 i2 = true ->
+  ff_assign (cs_args i1) = ff_assign (cs_args i2) /\ ff_results (cs_res i1) = ff_results (cs_res i2)
+  /\ ff_sub_rsp (cs_args i1) = ff_sub_rsp (cs_args i2).
+Proof.
+  intros W1 W2 H. unfold ff_interface_eq, ff_interface_eq_gen in H.
+  apply andb_true_iff in H as [H Ha]. apply andb_true_iff in H as [H Hr].
+  rewrite (forallb2_args_same _ _ W1 W2 Ha), (forallb2_res_same _ _ Hr). repeat split.
+Qed.
+
+(* a key that compares the size only for MIR_T_BLK (a plausible "optimisation") is unsound *)
+Example ff_cache_key_blk0_only_refuted :
+  let sized := fun c => c =? 12 in
+  let i1 := {| cs_res := []; cs_args := [ABlk 1 16; AInt I64]; cs_arg_vars_num := 2 |} in
+  let i2 := {| cs_res := []; cs_args := [ABlk 1 8; AInt I64]; cs_arg_vars_num := 2 |} in
+  ff_interface_eq_gen sized i1 i2 = true /\ ff_assign (cs_args i1) <> ff_assign (cs_args i2).
+Proof. split; [reflexivity|vm_compute; intros H; discriminate]. Qed.
